@@ -23,6 +23,7 @@ import (
 	"github.com/invopop/gobl/cbc"
 	"github.com/invopop/gobl/currency"
 	"github.com/invopop/gobl/l10n"
+	"github.com/invopop/gobl/schema"
 	"github.com/invopop/gobl/tax"
 )
 
@@ -106,6 +107,31 @@ var nativeHandlers = map[string]nativeHandler{
 			return i.opaqueError(err.Error(), iface{})
 		}
 		return iface{}
+	},
+	// schema.Lookup(obj): the registered schema id of the object's (pointer-free) type, from the real registry
+	"github.com/invopop/gobl/schema.Lookup": func(i *interpreter, args []value) value {
+		a, ok := args[0].(iface)
+		if !ok || a.t == nil {
+			return ""
+		}
+		T := a.t
+		for {
+			p, isPtr := T.Underlying().(*types.Pointer)
+			if _, named := T.(*types.Named); named || !isPtr {
+				break
+			}
+			T = p.Elem()
+		}
+		n, ok := T.(*types.Named)
+		if !ok || n.Obj().Pkg() == nil {
+			return ""
+		}
+		for rt, id := range schema.Types() {
+			if rt.PkgPath() == n.Obj().Pkg().Path() && rt.Name() == n.Obj().Name() {
+				return string(id)
+			}
+		}
+		return ""
 	},
 	// third-party string predicates of the validation library, on concrete strings only
 	"github.com/asaskevich/govalidator.IsURL": func(i *interpreter, args []value) value {
